@@ -31,6 +31,8 @@ type params struct {
 	Faults bool  // alphabet includes write/read faults (drop is always there)
 	Ooo    bool  // acknowledgements may be sent out of order
 	Bystander bool // a second, online subscriber holds a QoS 0 subscription to the same topic
+	Queue  int  // session queue capacity (0 = 16, more than any history needs); 1 makes publishes wait for room
+	NoDrop bool // the subscriber stays connected (no drop / fault events): with a small queue nothing may be lost to capacity
 	Real   bool // the broker writes / reads through the real transport.BaseConn (buffered writer, flush timer) over the pipe
 }
 
@@ -323,6 +325,9 @@ func history(x *explore.X, pr params) {
 	s.w = env.NewWorld(x, func(m *broker.MemoryBackend) {
 		m.ClientInflightMessages = pr.Window
 		m.SessionQueueSize = 16
+		if pr.Queue > 0 {
+			m.SessionQueueSize = pr.Queue
+		}
 	})
 	s.w.Real = pr.Real
 	s.helper = s.w.NewClient("h")
@@ -397,7 +402,9 @@ func history(x *explore.X, pr params) {
 					evs = append(evs, fmt.Sprintf("ack(%d)", i))
 				}
 			}
-			evs = append(evs, "drop")
+			if !pr.NoDrop {
+				evs = append(evs, "drop")
+			}
 			if pr.Faults {
 				evs = append(evs, "fail-next-write-before", "fail-next-write-after", "fail-next-read")
 			}
@@ -545,7 +552,7 @@ func (s *st) fingerprint() string {
 func part(r *report.Report, name string, p params, bound int) {
 	js, _ := json.Marshal(p)
 	st := explore.Explore(explore.Config{Harness: "subhist", Params: string(js), Bound: bound, Workers: report.Workers(), Deadline: r.Deadline()})
-	r.AddExploration(name, "history", fmt.Sprintf("all histories of depth %d (window %d, publish qos %v, clean connects %v, write/read faults %v, out-of-order acks %v, QoS 0 bystander %v, over transport.BaseConn %v), delay bound %d, each followed by a reconnect-and-acknowledge-everything epilogue", p.Depth, p.Window, p.QOS, p.Clean, p.Faults, p.Ooo, p.Bystander, p.Real, bound), st,
+	r.AddExploration(name, "history", fmt.Sprintf("all histories of depth %d (window %d, publish qos %v, clean connects %v, write/read faults %v, out-of-order acks %v, QoS 0 bystander %v, over transport.BaseConn %v, queue capacity %d (0 = 16), subscriber stays connected %v), delay bound %d, each followed by a reconnect-and-acknowledge-everything epilogue", p.Depth, p.Window, p.QOS, p.Clean, p.Faults, p.Ooo, p.Bystander, p.Real, p.Queue, p.NoDrop, bound), st,
 		"one execution = one history of publisher/subscriber/fault events; instant clauses at every broker write, store/token clauses at every quiescence, loss/progress clause after the epilogue; non-trivial = fault, acknowledgement and retransmission events (counted)",
 		"fault", "ack", "retransmission")
 }
@@ -585,7 +592,10 @@ func runC16(r *report.Report) {
 		part(r, "w2", params{Prop: "C16", Depth: 6, Window: 2, QOS: []int{0, 1, 2}, Ooo: true}, 0)
 		part(r, "w2-reordered", params{Prop: "C16", Depth: 4, Window: 2, QOS: []int{1, 2}}, 1)
 		part(r, "w2-over-baseconn", params{Prop: "C16", Depth: 6, Window: 2, QOS: []int{0, 1, 2}, Ooo: true, Real: true}, 0)
+		part(r, "w1-queue1-connected", params{Prop: "C16", Depth: 7, Window: 1, QOS: []int{1, 2}, Queue: 1, NoDrop: true}, 0)
 	} else {
+		part(r, "w1-queue1-connected", params{Prop: "C16", Depth: 10, Window: 1, QOS: []int{0, 1, 2}, Queue: 1, NoDrop: true}, 0)
+		part(r, "w2-queue2-connected", params{Prop: "C16", Depth: 9, Window: 2, QOS: []int{1, 2}, Queue: 2, NoDrop: true, Ooo: true}, 0)
 		part(r, "w2-over-baseconn", params{Prop: "C16", Depth: 8, Window: 2, QOS: []int{0, 1, 2}, Ooo: true, Real: true}, 0)
 		part(r, "w1", params{Prop: "C16", Depth: 8, Window: 1, QOS: []int{0, 1, 2}, Faults: true}, 0)
 		part(r, "w2", params{Prop: "C16", Depth: 8, Window: 2, QOS: []int{0, 1, 2}, Faults: true, Ooo: true}, 0)
